@@ -361,6 +361,9 @@ def run(ctx):
     # shared side of a one-to-many transfer)
     from .c02 import vectorize_once
     vectorize_once(ctx, 'C07.R1')
+    # which wells a selector addresses (the grammar of Slicer.__init__) is part of "exactly the addressed wells"
+    from .c13 import selector_grammar
+    selector_grammar(ctx, 'C07.R1')
     # R2 forwarding
     forwarding(ctx, 'C07.R2')
     for name in ('get_volumes', 'get_substances', 'get_moles'):
@@ -406,6 +409,9 @@ def run(ctx):
             o.rule = 'C07.R1'
             keep.append(o)
     ctx.obs[before:] = keep
+    # a recipe transfer between two regions of one plate is a legal eager transfer: not refused at declaration
+    from .c08 import declaration_refusals
+    declaration_refusals(ctx, 'C07.R3')
     # R4 one application per recipe step
     addressed_selection(ctx)
     from .c08 import recorded_operands
